@@ -11,6 +11,7 @@ package main
 import (
 	"bufio"
 	"bytes"
+	"context"
 	"encoding/json"
 	"fmt"
 	"os"
@@ -232,6 +233,77 @@ func newCCStore(kind, dir string) (ccStore, error) {
 	}
 }
 
+// listingScenarios: (1) request a listing, read one key, Put from the same goroutine, drain;
+// (2) request a listing, read nothing, cancel it, Put and Finalize.
+func listingScenarios(dir string) (string, string) {
+	p := filepath.Join(dir, "ls.car")
+	os.Remove(p)
+	defer os.Remove(p)
+	bs, err := blockstore.OpenReadWrite(p, []cid.Cid{ccBlock(0).Cid()})
+	if err != nil {
+		return "", ""
+	}
+	within := func(what string, f func() error) (string, string) {
+		done := make(chan error, 1)
+		go func() { done <- f() }()
+		select {
+		case err := <-done:
+			if err != nil {
+				return "listing/error", what + ": " + err.Error()
+			}
+			return "", ""
+		case <-time.After(10 * time.Second):
+			return "deadlock", what + " did not return within 10 s while a key listing was open"
+		}
+	}
+	bs.Put(bg, ccBlock(1))
+	bs.Put(bg, ccBlock(2))
+	ch, err := bs.AllKeysChan(bg)
+	if err != nil {
+		return "listing/error", err.Error()
+	}
+	got := map[string]bool{}
+	if c, ok := <-ch; ok {
+		got[string(c.Hash())] = true
+	}
+	if cls, msg := within("Put by the goroutine that holds a partly read listing", func() error { return bs.Put(bg, ccBlock(3)) }); cls != "" {
+		return cls, msg
+	}
+	if has, err := bs.Has(bg, ccBlock(3).Cid()); err != nil || !has {
+		return "listing/lost-put", fmt.Sprintf("a Put made while a listing was open is not found afterwards (has=%v err=%v)", has, err)
+	}
+	for c := range ch {
+		got[string(c.Hash())] = true
+	}
+	for i := 1; i <= 2; i++ {
+		if !got[string(ccBlock(i).Cid().Hash())] {
+			return "listing/incomplete", fmt.Sprintf("key %d, put before the listing was requested, is missing from it", i)
+		}
+	}
+	for k := range got {
+		known := false
+		for i := 1; i <= 3; i++ {
+			known = known || k == string(ccBlock(i).Cid().Hash())
+		}
+		if !known {
+			return "listing/invented", "the listing reports a key that was never put"
+		}
+	}
+	ctx, cancel := context.WithCancel(context.Background())
+	defer cancel()
+	if _, err := bs.AllKeysChan(ctx); err != nil {
+		return "listing/error", err.Error()
+	}
+	cancel()
+	if cls, msg := within("Put after an abandoned (cancelled) listing", func() error { return bs.Put(bg, ccBlock(4)) }); cls != "" {
+		return cls, msg
+	}
+	if cls, msg := within("Finalize after an abandoned (cancelled) listing", bs.Finalize); cls != "" {
+		return cls, msg
+	}
+	return "", ""
+}
+
 type ccOp struct {
 	Op  string
 	Key int
@@ -392,6 +464,12 @@ func runConcStress(args []string) int {
 	dir, _ := os.MkdirTemp("", "vh-cc-")
 	defer os.RemoveAll(dir)
 	rng := newRng(seed)
+	// listings that are not drained at once: a partly read or abandoned key listing must not keep
+	// writers (not even the listing goroutine itself) out
+	if cls, msg := listingScenarios(dir); cls != "" {
+		rep.violate("conc/"+cls+"/blockstore", msg, map[string]any{"family": "conc", "kind": "blockstore", "scenario": "partial-listing"})
+	}
+	rep.eval("listing-scenarios", true)
 	run := 0
 	for round := 0; round < rounds; round++ {
 		for _, kind := range []string{"blockstore", "storage", "deferred"} {
